@@ -301,7 +301,7 @@ def run(ctx):
     verdicts = ctx.validate('Trace_PlanWrite', 'Trace_PlanWrite', [strip(t) for _, t in runs], per_shard_min=30,
                             shards=4 if quick else None, extra_env={'JAVA_TOOL_OPTIONS': '-Xss256m'})
     phases['trace_validation'] = round(ctx.elapsed() - sum(phases.values()), 1)
-    clauses, pipes, feats = {}, {}, {'outdir': 0, 'no_outdir': 0, 'root': 0, 'mvi': 0, 'suffix': 0, 'replicate': 0, 'lib': 0, 'files_written': 0, 'per_lib_lists': 0}
+    clauses, pipes, feats = {}, {}, {'mixed_replicate_in_one_file': 0, 'default_lib': 0, 'outdir': 0, 'no_outdir': 0, 'root': 0, 'mvi': 0, 'suffix': 0, 'replicate': 0, 'lib': 0, 'files_written': 0, 'per_lib_lists': 0}
     for i, (case, t) in enumerate(runs):
         ok, clause, nwritten = verdicts[i]
         clauses[clause] = clauses.get(clause, 0) + 1
